@@ -88,13 +88,14 @@ type Parameters struct {
 //
 // See [rlwe.NewParametersFromLiteral] for default values of the other optional fields.
 func NewParametersFromLiteral(pl ParametersLiteral) (Parameters, error) {
+	// Checked first: GetRLWEParametersLiteral evaluates 2^LogDefaultScale, which is not finite for large values.
+	if pl.LogDefaultScale > 128 {
+		return Parameters{}, fmt.Errorf("cannot NewParametersFromLiteral: LogDefaultScale=%d > 128 or < 0", pl.LogDefaultScale)
+	}
+
 	rlweParams, err := rlwe.NewParametersFromLiteral(pl.GetRLWEParametersLiteral())
 	if err != nil {
 		return Parameters{}, fmt.Errorf("cannot NewParametersFromLiteral: %w", err)
-	}
-
-	if pl.LogDefaultScale > 128 {
-		return Parameters{}, fmt.Errorf("cannot NewParametersFromLiteral: LogDefaultScale=%d > 128 or < 0", pl.LogDefaultScale)
 	}
 
 	return Parameters{rlweParams}, nil
